@@ -27,9 +27,10 @@ impl<S: Signal> Signal for Counted<S> {
 }
 
 #[derive(Clone, Debug, PartialEq)]
-struct Ob { frame: Option<i32>, pa: usize, pb: usize, pulls: u64 }
+struct Ob { frame: Option<i32>, pa: Option<usize>, pb: Option<usize>, pulls: u64 }
 
-/// ops: bytes over `A`,`B` (branch next), `r` (drop handles, by_ref again), `c` (drop handles, by_rc; at most once, last split)
+/// ops: bytes over `A`,`B` (branch next), `r` (drop handles, by_ref again), `c` (drop handles, by_rc; at most
+/// once, last split), `a`/`b` (drop the handle of branch A / B only: the other one lives on)
 fn run_fork<D>(rb: ring_buffer::Bounded<D>, src: &[i32], ops: &[u8]) -> Vec<Ob>
 where
     D: ring_buffer::Slice<Element = i32> + ring_buffer::SliceMut,
@@ -41,11 +42,17 @@ where
     let mut i = 0usize;
     macro_rules! segment {
         ($a:ident, $b:ident) => {{
-            out.push(Ob { frame: None, pa: $a.pending_frames(), pb: $b.pending_frames(), pulls: pulls.get() });
+            let (mut $a, mut $b) = (Some($a), Some($b));
+            out.push(Ob { frame: None, pa: $a.as_ref().map(|x| x.pending_frames()), pb: $b.as_ref().map(|x| x.pending_frames()), pulls: pulls.get() });
             i += 1;
-            while i < ops.len() && (ops[i] == b'A' || ops[i] == b'B') {
-                let f = if ops[i] == b'A' { $a.next() } else { $b.next() };
-                out.push(Ob { frame: Some(f), pa: $a.pending_frames(), pb: $b.pending_frames(), pulls: pulls.get() });
+            while i < ops.len() && matches!(ops[i], b'A' | b'B' | b'a' | b'b') {
+                let f = match ops[i] {
+                    b'A' => Some($a.as_mut().expect("harness: pull on a dropped handle").next()),
+                    b'B' => Some($b.as_mut().expect("harness: pull on a dropped handle").next()),
+                    b'a' => { assert!($a.is_some()); $a = None; None }   // the handle is dropped here
+                    _ => { assert!($b.is_some()); $b = None; None }
+                };
+                out.push(Ob { frame: f, pa: $a.as_ref().map(|x| x.pending_frames()), pb: $b.as_ref().map(|x| x.pending_frames()), pulls: pulls.get() });
                 i += 1;
             }
         }};
@@ -53,9 +60,9 @@ where
     loop {
         if i >= ops.len() { break; }
         match ops[i] {
-            b'r' => { let (mut a, mut b) = fork.by_ref(); segment!(a, b); }
+            b'r' => { let (a, b) = fork.by_ref(); segment!(a, b); }
             b'c' => {
-                let (mut a, mut b) = fork.by_rc();
+                let (a, b) = fork.by_rc();
                 segment!(a, b);
                 assert!(i == ops.len(), "harness: nothing can follow the by_rc segment but A/B");
                 break;
@@ -78,7 +85,10 @@ fn run_case(cap: usize, src: &[i32], ops: &[u8]) -> Option<Vec<Ob>> {
 fn show(obs: &Option<Vec<Ob>>) -> String {
     match obs {
         None => "panic".into(),
-        Some(v) => v.iter().map(|o| format!("{}:{}:{}:{}", match o.frame { Some(f) => f.to_string(), None => "-".into() }, o.pa, o.pb, o.pulls)).collect::<Vec<_>>().join(" "),
+        Some(v) => {
+            let opt = |x: Option<usize>| match x { Some(n) => n.to_string(), None => "-".into() };
+            v.iter().map(|o| format!("{}:{}:{}:{}", match o.frame { Some(f) => f.to_string(), None => "-".into() }, opt(o.pa), opt(o.pb), o.pulls)).collect::<Vec<_>>().join(" ")
+        }
     }
 }
 
@@ -89,26 +99,31 @@ fn line(cap: usize, src: &[i32], ops: &[u8]) -> String {
     s
 }
 
-/// does the schedule stay inside the property's domain (neither branch ahead by more than cap)?
-fn in_domain(cap: usize, ops: &[u8]) -> bool {
+/// length of the longest prefix of the schedule inside the property's domain (neither branch ahead of the
+/// other by more than cap; a dropped branch's cursor stays where it was)
+fn domain_prefix(cap: usize, ops: &[u8]) -> usize {
     let (mut a, mut b) = (0i64, 0i64);
-    for &o in ops {
+    for (k, &o) in ops.iter().enumerate() {
         if o == b'A' { a += 1 } else if o == b'B' { b += 1 }
-        if (a - b).abs() > cap as i64 { return false; }
+        if (a - b).abs() > cap as i64 { return k; }
     }
-    true
+    ops.len()
 }
+fn in_domain(cap: usize, ops: &[u8]) -> bool { domain_prefix(cap, ops) == ops.len() }
 
 /// The property, read literally, on the implementation's observations:
 /// each branch's log is the source's frames in order (none lost / duplicated / reordered),
 /// the source was pulled once per distinct frame handed out so far, and each branch's pending
-/// count is the number of frames it lags behind.  Returns the number of checks or the failure.
-fn oracle(src: &[i32], ops: &[u8], obs: &[Ob]) -> Result<u64, (String, String, String)> {
+/// count is the number of frames it lags behind (asked of the handles that exist).  Only the first `upto`
+/// ops (the part of the schedule inside the property's domain) are judged.  This holds just the same while
+/// one reference-counted branch has been dropped: the survivor must still get every frame in order.
+/// Returns the number of checks or the failure.
+fn oracle(src: &[i32], ops: &[u8], obs: &[Ob], upto: usize) -> Result<u64, (String, String, String)> {
     let mut log_a: Vec<i32> = Vec::new();
     let mut log_b: Vec<i32> = Vec::new();
     let mut n = 0u64;
     if obs.len() != ops.len() { return Err(("number of observations".into(), ops.len().to_string(), obs.len().to_string())); }
-    for (k, (&op, ob)) in ops.iter().zip(obs).enumerate() {
+    for (k, (&op, ob)) in ops.iter().zip(obs).enumerate().take(upto) {
         match op {
             b'A' => log_a.push(ob.frame.unwrap()),
             b'B' => log_b.push(ob.frame.unwrap()),
@@ -128,17 +143,18 @@ fn oracle(src: &[i32], ops: &[u8], obs: &[Ob]) -> Result<u64, (String, String, S
         }
         let lag_a = log_b.len().saturating_sub(log_a.len());
         let lag_b = log_a.len().saturating_sub(log_b.len());
-        if ob.pa != lag_a || ob.pb != lag_b {
-            return Err((format!("pending_frames != lag (after op {})", k), format!("A:{} B:{}", lag_a, lag_b), format!("A:{} B:{}", ob.pa, ob.pb)));
+        if ob.pa.map_or(false, |p| p != lag_a) || ob.pb.map_or(false, |p| p != lag_b) {
+            return Err((format!("pending_frames != lag (after op {})", k), format!("A:{} B:{}", lag_a, lag_b), format!("A:{:?} B:{:?}", ob.pa, ob.pb)));
         }
         n += 3;
     }
     Ok(n)
 }
 
-struct Gen { ops: Vec<u8>, a: i64, b: i64, cap: i64, rc: bool, bounded: bool }
+struct Gen { ops: Vec<u8>, a: i64, b: i64, cap: i64, rc: bool, bounded: bool, live_a: bool, live_b: bool }
 impl Gen {
     fn can(&self, x: u8) -> bool {
+        if (x == b'A' && !self.live_a) || (x == b'B' && !self.live_b) { return false; }
         if !self.bounded { return true; }
         let (a, b) = if x == b'A' { (self.a + 1, self.b) } else { (self.a, self.b + 1) };
         (a - b).abs() <= self.cap
@@ -151,17 +167,27 @@ impl Gen {
     fn split(&mut self, rng: &mut Rng) {
         if self.rc { return; }
         if rng.chance(1, 5) { self.ops.push(b'c'); self.rc = true; } else { self.ops.push(b'r'); }
+        self.live_a = true; self.live_b = true;   // a new split hands out both handles again
+    }
+    /// drop one handle while the other lives on: the leader, the laggard, or either
+    fn drop_one(&mut self, rng: &mut Rng) {
+        if !(self.live_a && self.live_b) { return; }
+        let leader_is_a = self.a >= self.b;
+        let drop_a = match rng.below(3) { 0 => leader_is_a, 1 => !leader_is_a, _ => rng.chance(1, 2) };
+        if drop_a { self.ops.push(b'a'); self.live_a = false; } else { self.ops.push(b'b'); self.live_b = false; }
     }
 }
 
 /// structured random schedule: run-ahead to lead == cap exactly, catch-up, overtake (sign flip),
 /// random walk, strict alternation, re-splits
 fn random_schedule(rng: &mut Rng, cap: usize, len: usize, bounded: bool) -> Vec<u8> {
-    let mut g = Gen { ops: vec![], a: 0, b: 0, cap: cap as i64, rc: false, bounded };
-    if rng.chance(1, 4) { g.ops.push(b'c'); g.rc = true; } else { g.ops.push(b'r'); }
-    while g.ops.len() < len {
+    let mut g = Gen { ops: vec![], a: 0, b: 0, cap: cap as i64, rc: false, bounded, live_a: true, live_b: true };
+    if rng.chance(1, 3) { g.ops.push(b'c'); g.rc = true; } else { g.ops.push(b'r'); }
+    let mut rounds = 0;
+    while g.ops.len() < len && rounds < 8 * len + 50 {
+        rounds += 1;
         let room = len - g.ops.len();
-        match rng.below(6) {
+        match rng.below(8) {
             0 => { // one branch runs ahead until it leads by exactly cap (or a few past it when unbounded)
                 let x = if rng.chance(1, 2) { b'A' } else { b'B' };
                 let extra = if bounded { 0 } else { rng.below(4) as usize };
@@ -187,7 +213,12 @@ fn random_schedule(rng: &mut Rng, cap: usize, len: usize, bounded: bool) -> Vec<
                 let x = if g.a < g.b { b'A' } else { b'B' };
                 for _ in 0..((g.a - g.b).abs() as usize).min(room) { g.push(x); }
             }
-            _ => g.split(rng),
+            5 => g.split(rng),
+            6 => g.drop_one(rng),
+            _ => { // the survivor (or, with both alive, either branch) keeps going as far as the domain allows
+                let x = if g.live_a && !g.live_b { b'A' } else if g.live_b && !g.live_a { b'B' } else if rng.chance(1, 2) { b'A' } else { b'B' };
+                for _ in 0..rng.below(2 * cap as u64 + 4).min(room as u64) { if !g.push(x) { break; } }
+            }
         }
     }
     g.ops.truncate(len.max(1));
@@ -198,6 +229,7 @@ fn case(st: &mut Stream, cap: usize, src: &[i32], ops: &[u8], kind: &str) {
     let l = line(cap, src, ops);
     let obs = run_case(cap, src, ops);
     let dom = in_domain(cap, ops);
+    let upto = domain_prefix(cap, ops);
     // non-trivial: the lead changes sign, or a re-split happens while the branches are apart
     let (mut a, mut b, mut apos, mut bpos, mut split_apart, mut at_cap) = (0i64, 0i64, false, false, false, false);
     for (k, &o) in ops.iter().enumerate() {
@@ -205,9 +237,21 @@ fn case(st: &mut Stream, cap: usize, src: &[i32], ops: &[u8], kind: &str) {
         if a > b { apos = true } else if b > a { bpos = true }
         if (a - b).abs() == cap as i64 { at_cap = true; }
     }
-    let nontrivial = (apos && bpos) || split_apart;
+    // a handle dropped while the branches are apart, and the survivor pulled afterwards
+    let (mut da, mut db, mut dropped_apart_then_pulled, mut pending_drop) = (0i64, 0i64, false, false);
+    for &o in ops.iter() {
+        match o {
+            b'A' => { da += 1; if pending_drop { dropped_apart_then_pulled = true; } }
+            b'B' => { db += 1; if pending_drop { dropped_apart_then_pulled = true; } }
+            b'a' => { if da != db { pending_drop = true; } if da > db { st.count("drop_leader") } else if da < db { st.count("drop_laggard") } else { st.count("drop_level") } }
+            b'b' => { if da != db { pending_drop = true; } if db > da { st.count("drop_leader") } else if db < da { st.count("drop_laggard") } else { st.count("drop_level") } }
+            _ => { pending_drop = false; }
+        }
+    }
+    if dropped_apart_then_pulled { st.count("survivor_pulled_after_drop_while_apart"); }
+    let nontrivial = (apos && bpos) || split_apart || dropped_apart_then_pulled;
     st.count(kind);
-    st.count(&format!("cap_{}", if cap <= 4 { cap.to_string() } else if cap <= 16 { "5-16".into() } else { "17-64".into() }));
+    st.count(&format!("cap_{}", if cap <= 4 { cap.to_string() } else if cap <= 16 { "5-16".into() } else if cap <= 64 { "17-64".into() } else { format!("{}", cap) }));
     if apos && bpos { st.count("lead_changes_sign"); }
     if at_cap { st.count("lead_reaches_cap_exactly"); }
     if split_apart { st.count("resplit_while_apart"); }
@@ -217,10 +261,10 @@ fn case(st: &mut Stream, cap: usize, src: &[i32], ops: &[u8], kind: &str) {
     if obs.is_none() { st.count("panic"); }
     st.count_n("ops", ops.len() as u64);
     st.case(&l, &show(&obs), nontrivial, ops.len() as u64);
-    if dom {
+    {
         match &obs {
-            None => st.oracle_fail("fork panicked inside the property's domain", &l, "no panic", "panic"),
-            Some(v) => match oracle(src, ops, v) {
+            None => if dom { st.oracle_fail("fork panicked inside the property's domain", &l, "no panic", "panic") },
+            Some(v) => match oracle(src, ops, v, upto) {
                 Ok(n) => st.oracle_ok(n),
                 Err((what, want, got)) => st.oracle_fail(&what, &l, &want, &got),
             },
@@ -269,6 +313,25 @@ pub fn run(a: &Args) {
                 re.push(o);
             }
             case(&mut st, cap, &src, &re, "exhaustive_resplit");
+            // lifetime events: at every position j drop branch X's handle; the rest of the schedule keeps only the
+            // survivor's pulls.  By `Rc` the drop is final; by reference the fork is split again two survivor
+            // pulls later and the whole rest of the schedule runs with both handles.
+            for j in 0..=l_max {
+                for &x in &[b'A', b'B'] {
+                    let other = if x == b'A' { b'B' } else { b'A' };
+                    let dropc = if x == b'A' { b'a' } else { b'b' };
+                    let mut rc_drop = vec![b'c']; rc_drop.extend(&sched[..j]); rc_drop.push(dropc);
+                    rc_drop.extend(sched[j..].iter().filter(|&&o| o == other));
+                    case(&mut st, cap, &src, &rc_drop, "exhaustive_rc_drop_one");
+                    if (bits as usize + j) % 4 == 0 {
+                        let mut ref_drop = vec![b'r']; ref_drop.extend(&sched[..j]); ref_drop.push(dropc);
+                        let mut solo = 0; let mut k = j;
+                        while k < sched.len() && solo < 2 { if sched[k] == other { ref_drop.push(other); solo += 1; } k += 1; }
+                        ref_drop.push(b'r'); ref_drop.extend(&sched[k..]);
+                        case(&mut st, cap, &src, &ref_drop, "exhaustive_ref_drop_one_then_resplit");
+                    }
+                }
+            }
         }
     }
     st.note(&format!("all {} lead-bounded schedules over {{A,B}} of length {} for cap 1..3 enumerated (each by_ref, by_rc, re-split)", n_exh, l_max));
@@ -283,6 +346,42 @@ pub fn run(a: &Args) {
         let n = match rng.below(4) { 0 => rng.usize_below(consumed + 1), 1 => consumed, _ => consumed + 1 + rng.usize_below(4) };
         let src = rand_src(&mut rng, n);
         case(&mut st, cap, &src, &ops, if long { "random_long" } else { "random" });
+    }
+    // ---- 2b. large capacities, leads up to the capacity (long cases: few of them)
+    let big_caps: &[usize] = if a.thorough() { &[100, 512, 513, 1000, 4096] } else { &[100, 513, 1000] };
+    let big_reps = if a.thorough() { 6 } else { 1 };
+    for &cap in big_caps {
+        for rep in 0..big_reps {
+            let blk = |x: u8, n: usize| std::iter::repeat(x).take(n);
+            let k = if rep == 0 { cap } else { 1 + rng.usize_below(cap) };
+            let mut scheds: Vec<(Vec<u8>, &str)> = Vec::new();
+            // lead = cap exactly on both sides, through the hand-over, by_ref then by_rc
+            let mut s1 = vec![b'r']; s1.extend(blk(b'A', cap)); s1.extend(blk(b'B', cap)); s1.extend(blk(b'B', k));
+            s1.push(b'c'); s1.extend(blk(b'A', k)); s1.extend(blk(b'A', cap)); s1.extend(blk(b'B', cap / 2));
+            scheds.push((s1, "large_cap_full_lead_both_sides"));
+            // the leader is dropped with the queue holding k frames; the survivor drains them and goes on to lead = cap
+            for (lead, lag, dl, dg) in [(b'A', b'B', b'a', b'b'), (b'B', b'A', b'b', b'a')] {
+                let mut s2 = vec![b'c']; s2.extend(blk(lead, k)); s2.push(dl); s2.extend(blk(lag, k)); s2.extend(blk(lag, cap));
+                scheds.push((s2, "large_cap_rc_drop_leader"));
+                let mut s3 = vec![b'c']; s3.extend(blk(lead, k / 2)); s3.push(dg); s3.extend(blk(lead, cap - k / 2));
+                scheds.push((s3, "large_cap_rc_drop_laggard"));
+            }
+            // random blocks within the lead bound
+            let mut g = Gen { ops: vec![b'r'], a: 0, b: 0, cap: cap as i64, rc: false, bounded: true, live_a: true, live_b: true };
+            for _ in 0..8 {
+                let x = if rng.chance(1, 2) { b'A' } else { b'B' };
+                let n = 1 + rng.usize_below(2 * cap);
+                for _ in 0..n { if !g.push(x) { break; } }
+                if rng.chance(1, 4) { g.split(&mut rng); }
+            }
+            scheds.push((g.ops, "large_cap_random_blocks"));
+            for (ops, kind) in scheds {
+                let consumed = ops.iter().filter(|&&o| o == b'A').count().max(ops.iter().filter(|&&o| o == b'B').count());
+                let n = if rep % 2 == 0 { consumed + 3 } else { consumed.saturating_sub(cap / 3) };
+                let src = rand_src(&mut rng, n);
+                case(&mut st, cap, &src, &ops, kind);
+            }
+        }
     }
     // ---- 3. outside the property's domain (lead > cap: frames are overwritten): model correspondence only
     let n_over = if a.thorough() { 40_000 } else { 8_000 };
